@@ -8,11 +8,14 @@
     tree accepted by checkStructure is), where the nil pointers stored inside slices / maps are ids `≥ B`.
     `B` is any bound on the size of the stores involved (the model's nil id is 10^9), so that a nil
     pointer stays nil while the clone allocates.  `Go.goodB` is a checker for it.
+  * `Iso.refFree st d a` (JSV/Proofs/IsoValid.lean): the unfolding of `a` ends within depth `d` and no schema object of
+    it has a `$ref` or a `$dynamicRef` (decidable).
 -/
 import JSV.Proofs.MshNode
 import JSV.Proofs.MshFacts
 import JSV.Proofs.MshCloneOk
 import JSV.Model.Unmarshal
+import JSV.Proofs.IsoValid
 namespace JSV.C20
 open JSV Go
 
@@ -152,6 +155,71 @@ theorem clone_total_of_checkStructure (st : Store) (root : NodeId) (cfuel : Nat)
   exact ⟨c, st', h, (clone_store_extends st root c st' h).2,
     fun b hb => ((clone_fresh st root c st' h).2 b hb).1, hm⟩
 
+/-! ## the clone keeps the validation behaviour (reference-free trees) -/
+
+/-- `clone_validates_same_partial`.  For a REFERENCE-FREE acyclic `root` (`Iso.refFree st d root`: within depth `d` —
+    nil pointers inside slices / maps allowed — no schema object below `root` has a `$ref` or a `$dynamicRef`; decidable)
+    the clone means exactly what the original means: with ANY resolution tables on either side (`refTarget`, `dyn*`,
+    `resource` of `env` and `env'` are arbitrary and may differ — they are never consulted, which is also why nothing
+    is asked about `$id` / `$anchor` / `$dynamicAnchor`), the same draft and regexp matcher, every instance gets, with
+    every amount of fuel, the same Spec result (undefined / invalid / valid with the same evaluated properties and items)
+    * from the clone `c` in the new store as from `root` in the old store, and
+    * from `root` in the new store as from `root` in the old store (the original is untouched).
+    Proof: `Go.cloneFuel_sim` gives the simulation `Go.Sim` between the two subtrees (node by node `Go.NodeRel`: a
+    shallow copy whose schema-valued fields have the same shape and related members); it is an `Iso.EnvSim`, and
+    validity is invariant under a renaming of node ids (`Iso.evalFuel_sim`).
+    PARTIAL: trees that contain `$ref` / `$dynamicRef` are not covered.  Their meaning depends on the resolution tables,
+    which `Resolve` computes separately for the clone (by URI, from `$id` / `$anchor` / paths); the statement then needs
+    "`Resolve` of the clone yields tables related to those of the original" (`Iso.TablesSim`), which is not proved.
+    `Iso.evalFuel_sim` itself covers references: see the example at the end of JSV/Proofs/IsoValid.lean. -/
+theorem clone_validates_same_partial (B d : Nat) (st : Store) (root c : NodeId) (st' : Store)
+    (hg : Go.Good B st d root) (hfree : Iso.refFree st d root = true)
+    (h : Go.clone st root = .ok (c, st')) (hB : st'.size ≤ B)
+    (env env' : Spec.Env) (hd : env.draft = env'.draft) (hre : env.reMatch = env'.reMatch) (fuel : Nat) (j : Json) :
+    Spec.evalFuel { env' with st := st' } fuel [] c j = Spec.evalFuel { env with st := st } fuel [] root j ∧
+    Spec.evalFuel { env' with st := st' } fuel [] root j = Spec.evalFuel { env with st := st } fuel [] root j := by
+  have hext := Go.cloneFuel_ext _ h
+  have hs : st.size ≤ B := Nat.le_trans hext.1 hB
+  have hE := Iso.cloneR_envSim hs hB env env' hd hre
+  have h1 : Go.Sim B st st' d root c := Go.cloneFuel_sim B st _ d (Go.Ext.refl st) hg h hB
+  have h2 : Go.Sim B st st' d root root := Go.Sim.of_good hext d root hg
+  exact ⟨(Iso.evalFuel_sim hE fuel .nil ⟨d, hfree, h1⟩ j).symm, (Iso.evalFuel_sim hE fuel .nil ⟨d, hfree, h2⟩ j).symm⟩
+
+/-- the same in the code's own terms: a reference-free tree that checkStructure accepts is cloned successfully, and the
+    clone validates exactly like the original (PARTIAL as above: no `$ref` / `$dynamicRef` in the tree) -/
+theorem clone_validates_same_of_checkStructure_partial (st : Store) (root : NodeId) (cfuel : Nat)
+    (infos : List (NodeId × Go.Info)) (hc : Go.checkStructure st cfuel [(root, "")] [] = .ok infos)
+    (hfree : Iso.refFree st st.size root = true)
+    (env env' : Spec.Env) (hd : env.draft = env'.draft) (hre : env.reMatch = env'.reMatch) :
+    ∃ c st', Go.clone st root = .ok (c, st') ∧ ∀ fuel j,
+      Spec.evalFuel { env' with st := st' } fuel [] c j = Spec.evalFuel { env with st := st } fuel [] root j := by
+  obtain ⟨c, st', h, -, -, -⟩ := clone_total_of_checkStructure st root cfuel infos hc
+  exact ⟨c, st', h, fun fuel j => (clone_validates_same_partial st'.size st.size st root c st'
+    (Go.good_of_checkStructure _ st cfuel root infos hc) hfree h (Nat.le_refl _) env env' hd hre fuel j).1⟩
+
+/-- … and for the evaluator itself (`Go.validateFuel`, through `C01.validate_refines_spec`): on two resolved
+    environments — `env₁` over the original store, `env₂` over the store after cloning, well formed as `Resolve` leaves
+    them (`EnvWF`, `StoreWF`), same draft and regexp matcher, otherwise unrelated — ONE Spec result governs the run on
+    `root` and the run on the clone `c`: wherever the Spec decides, both return an error or both succeed with
+    annotations denoting the same evaluated sets.  PARTIAL: reference-free trees only, as above. -/
+theorem clone_validate_same_partial (B d : Nat) (root c : NodeId) (env₁ env₂ : Go.VEnv)
+    (hg : Go.Good B env₁.st d root) (hfree : Iso.refFree env₁.st d root = true)
+    (h : Go.clone env₁.st root = .ok (c, env₂.st)) (hB : env₂.st.size ≤ B)
+    (hwf₁ : Refine.EnvWF env₁) (hwf₂ : Refine.EnvWF env₂) (hst₁ : Refine.StoreWF env₁.st)
+    (hst₂ : Refine.StoreWF env₂.st) (hd : env₁.draft = env₂.draft) (hre : env₁.reMatch = env₂.reMatch)
+    (fuel : Nat) (j : Json) (hj : Json.WF j = true) :
+    Refine.Rel j (Spec.evalFuel (Refine.specEnvOf env₁) fuel [] root j)
+        (Go.validateFuel env₁ fuel [] (GoVal.ofJson j) root) ∧
+      Refine.Rel j (Spec.evalFuel (Refine.specEnvOf env₁) fuel [] root j)
+        (Go.validateFuel env₂ fuel [] (GoVal.ofJson j) c) := by
+  have hext := Go.cloneFuel_ext _ h
+  have hs : env₁.st.size ≤ B := Nat.le_trans hext.1 hB
+  have hE : Iso.EnvSim (Iso.CloneR B env₁.st env₂.st) (Refine.specEnvOf env₁) (Refine.specEnvOf env₂) :=
+    Iso.cloneR_envSim hs hB (Refine.specEnvOf env₁) (Refine.specEnvOf env₂) hd hre
+  have h1 : Go.Sim B env₁.st env₂.st d root c := Go.cloneFuel_sim B env₁.st _ d (Go.Ext.refl _) hg h hB
+  exact Iso.validate_iso env₁ env₂ hwf₁ hwf₂ hst₁ hst₂ hE fuel .nil (fun _ hx => nomatch hx) (fun _ hx => nomatch hx)
+    ⟨d, hfree, h1⟩ j hj
+
 /-- the 23 fields cloneStep rewrites are exactly the Schema-typed fields of the Go struct: every field
     whose Go type mentions `Schema` has type `*Schema`, `[]*Schema` or `map[string]*Schema`; there are 23
     of them, as many as `Node.childFields` (13 + 5 + 5 by kind); and the JSON names agree -/
@@ -235,6 +303,39 @@ example : ∃ c st', Go.clone exTree 0 = .ok (c, st') ∧ (∀ i, i < exTree.siz
   | fuel => exact absurd (show (Go.checkStructure exTree 7 [(0, "")] []).isOk = true by decide) (by rw [hc]; decide)
   | panic => exact absurd (show (Go.checkStructure exTree 7 [(0, "")] []).isOk = true by decide) (by rw [hc]; decide)
   | err => exact absurd (show (Go.checkStructure exTree 7 [(0, "")] []).isOk = true by decide) (by rw [hc]; decide)
+
+/-! ### `clone_validates_same_partial` is not vacuous -/
+
+/-- `exTree` and `exStore` (a DAG with a nil `$defs` entry) are reference-free -/
+example : Iso.refFree exTree exTree.size 0 = true := by decide
+example : Iso.refFree exStore 3 0 = true := by decide
+/-- … a `$ref` anywhere below the root is seen -/
+example : Iso.refFree #[{ allOf := some [1] }, { not := some 2 }, { ref := "#" }] 3 0 = false := by decide
+
+/-- `clone_validates_same_of_checkStructure_partial` applied to `exTree`: whatever the tables, the clone gives every
+    instance the result the original gives -/
+example (env : Spec.Env) : ∃ c st', Go.clone exTree 0 = .ok (c, st') ∧ ∀ fuel j,
+      Spec.evalFuel { env with st := st' } fuel [] c j = Spec.evalFuel { env with st := exTree } fuel [] 0 j := by
+  cases hc : Go.checkStructure exTree 7 [(0, "")] [] with
+  | ok infos => exact clone_validates_same_of_checkStructure_partial exTree 0 7 infos hc (by decide) env env rfl rfl
+  | fuel => exact absurd (show (Go.checkStructure exTree 7 [(0, "")] []).isOk = true by decide) (by rw [hc]; decide)
+  | panic => exact absurd (show (Go.checkStructure exTree 7 [(0, "")] []).isOk = true by decide) (by rw [hc]; decide)
+  | err => exact absurd (show (Go.checkStructure exTree 7 [(0, "")] []).isOk = true by decide) (by rw [hc]; decide)
+
+/-- `clone_validates_same_partial` applied to the DAG `exStore` (nil entry in `$defs`, nodes 1 and 3 shared) -/
+example (env : Spec.Env) (st' : Store) (c : NodeId) (h : Go.clone exStore 0 = .ok (c, st')) (hB : st'.size ≤ Go.nilId)
+    (fuel : Nat) (j : Json) :
+    Spec.evalFuel { env with st := st' } fuel [] c j = Spec.evalFuel { env with st := exStore } fuel [] 0 j :=
+  (clone_validates_same_partial Go.nilId 3 exStore 0 c st' (Go.goodB_sound _ _ _ _ (by decide)) (by decide) h hB
+    env env rfl rfl fuel j).1
+
+/-- … and these results are defined and not all the same -/
+def exSpecEnv (st : Store) : Spec.Env :=
+  { st := st, draft := .d2020, refTarget := fun _ => none, dynInitial := fun _ => none, dynName := fun _ => "",
+    resource := fun _ => none, dynDecl := fun _ _ => none, reMatch := fun _ _ => false }
+example : Spec.valid (exSpecEnv exStore) 3 0 (.str "x") = some true := by decide
+example : Spec.valid (exSpecEnv exStore) 3 0 (.str "") = some false := by decide
+example : Spec.valid (exSpecEnv exStore) 3 0 (.obj []) = some false := by decide
 
 /-- why `st'.size ≤ B` is assumed: a "nil" id that the clone's own allocations reach stops being nil.
     Here node 0 has `not := some 1` with 1 dangling (nil); the clone is allocated at id 1 and its `not`
